@@ -283,8 +283,180 @@ pub fn run_case(rc: &mut RunCtx, id: String, fm_client: u32, fm_server: u32, nch
     rc.end(res);
 }
 
+/// Frames the I/O thread originates on a channel by itself (the CancelOk that answers a
+/// server cancel) must not land between the frames of a publish in flight on that channel.
+/// Returns the channel's frames without those CancelOks, or reports the misplaced one.
+fn strip_cancel_oks<'a>(frames: &'a [WFrame], ch: u16, res: &mut CaseResult) -> Option<Vec<WFrame>> {
+    let mut out = Vec::new();
+    // 0 = between publishes, 1 = header expected, 2 = body bytes outstanding
+    let (mut state, mut remaining) = (0u8, 0u64);
+    let mut seen = 0u64;
+    for f in frames.iter().filter(|f| f.ch == ch) {
+        if let Some(AMQPClass::Basic(B::CancelOk(_))) = f.method() {
+            seen += 1;
+            if state != 0 {
+                res.violate(
+                    "foreign_frame_inside_publish",
+                    format!("ch{}: Basic.CancelOk (the answer to a server cancel) was written {} of a publish in flight on the same channel", ch, if state == 1 { "between the method and the content header".to_string() } else { format!("among the body frames ({} body bytes still to come)", remaining) }),
+                );
+                return None;
+            }
+            continue;
+        }
+        match &f.dec {
+            Decoded::Method(AMQPClass::Basic(B::Publish(_))) => state = 1,
+            Decoded::Header(h) if state == 1 => {
+                remaining = h.body_size;
+                state = if remaining == 0 { 0 } else { 2 };
+            }
+            Decoded::Body(b) if state == 2 => {
+                remaining = remaining.saturating_sub(b.len() as u64);
+                if remaining == 0 {
+                    state = 0;
+                }
+            }
+            _ => {}
+        }
+        out.push(f.clone());
+    }
+    res.obs("cancel_oks_on_the_wire", seen);
+    Some(out)
+}
+
+/// A consumer on the publishing channel is cancelled by the server (asking for CancelOk, or
+/// not) while a publish of hundreds of body frames is in flight on that channel.
+fn cancel_mid_publish(r: &mut Rng, res: &mut CaseResult) {
+    let fm = 4096u32;
+    let mut reflex = Reflex::default();
+    reflex.tune = (2047, fm, 0);
+    // a small in-memory channel so that the publisher moves in step with the I/O thread
+    let tuning = ConnectionTuning::default().mem_channel_bound(*r.pick(&[1usize, 2, 8]));
+    let (conn, h) = session::open_with(reflex, session::default_opts(), tuning, |_| {});
+    let mut conn = match conn {
+        Ok(c) => c,
+        Err(e) => {
+            res.inconclusive(format!("handshake failed: {}", ek(&e)));
+            return;
+        }
+    };
+    let ch = match conn.open_channel(None) {
+        Ok(c) => c,
+        Err(e) => {
+            res.inconclusive(format!("open_channel failed: {}", ek(&e)));
+            return;
+        }
+    };
+    let chid = ch.channel_id();
+    let ncons = r.usize(1, 3);
+    let nowaits: Vec<bool> = (0..ncons).map(|_| r.chance(1, 4)).collect();
+    let pubs: Vec<Pub> = (0..r.usize(1, 3))
+        .map(|i| {
+            let mut p = gen_pubs(r, &format!("big{}", i), 1, fm, false).remove(0);
+            p.via = 0;
+            let len = r.usize(300, 1500) * (fm as usize - 8) + r.usize(0, 4000);
+            p.body = r.bytes(len);
+            p
+        })
+        .collect();
+    let pubs2 = pubs.clone();
+    let (tag_tx, tag_rx) = crossbeam_channel::bounded(1);
+    let (go_tx, go_rx) = crossbeam_channel::bounded::<()>(1);
+    let t = run::spawn("publisher", move || {
+        let mut errs = Vec::new();
+        let mut consumers = Vec::new();
+        for _ in 0..ncons {
+            match ch.basic_consume("q", amiquip::ConsumerOptions::default()) {
+                Ok(c) => consumers.push(c),
+                Err(e) => errs.push(format!("consume: {}", ek(&e))),
+            }
+        }
+        let _ = tag_tx.send(consumers.iter().map(|c| c.consumer_tag().to_string()).collect::<Vec<_>>());
+        let _ = go_rx.recv_timeout(W);
+        for p in &pubs2 {
+            if let Err(e) = do_publish(&ch, p) {
+                errs.push(format!("publish {}: {}", p.routing_key, ek(&e)));
+            }
+        }
+        if let Err(e) = ch.qos(0, 0, false) {
+            errs.push(format!("barrier: {}", ek(&e)));
+        }
+        // every consumer was told that the server cancelled it
+        for c in &consumers {
+            match c.receiver().recv_timeout(W) {
+                Ok(amiquip::ConsumerMessage::ServerCancelled) => {}
+                other => errs.push(format!("consumer {}: {:?} instead of ServerCancelled", c.consumer_tag(), other.map(|_| "another message"))),
+            }
+        }
+        std::mem::forget(consumers);
+        let _ = ch.close();
+        errs
+    });
+    let tags: Vec<String> = match tag_rx.recv_timeout(W) {
+        Ok(t) => t,
+        Err(_) => {
+            res.inconclusive("consumers not ready");
+            std::mem::forget(conn);
+            return;
+        }
+    };
+    let _ = go_tx.send(());
+    // cancel each consumer once a random number of body frames of the publishes is out
+    let total_frames: usize = pubs.iter().map(|p| (p.body.len() + fm as usize - 9) / (fm as usize - 8)).sum();
+    let mut points: Vec<usize> = tags.iter().map(|_| r.usize(1, total_frames.saturating_sub(2).max(1))).collect();
+    points.sort_unstable();
+    for (tag, (at, nowait)) in tags.iter().zip(points.iter().zip(nowaits.iter())) {
+        h.wait(W, |st| st.frames.iter().filter(|f| f.ch == chid && f.ty == wire::T_BODY).count() >= *at || st.released);
+        h.inject(wire::enc_method(chid, AMQPClass::Basic(B::Cancel(amq_protocol::protocol::basic::Cancel { consumer_tag: tag.clone(), nowait: *nowait }))));
+        res.obs("server_cancels_during_a_publish", 1);
+    }
+    match t.join(W * 3) {
+        J::Done(errs) => {
+            for e in errs {
+                res.violate("publish_failed", e);
+            }
+        }
+        _ => {
+            res.inconclusive("publisher did not finish");
+            std::mem::forget(conn);
+            return;
+        }
+    }
+    let frames = h.frames();
+    if let Some(e) = h.peek(|st| st.parse_error.clone()) {
+        res.violate("malformed_outbound_frame", e);
+    }
+    let want_oks = nowaits.iter().filter(|n| !**n).count() as u64;
+    if let Some(clean) = strip_cancel_oks(&frames, chid, res) {
+        let got_oks = frames.iter().filter(|f| f.ch == chid && matches!(f.method(), Some(AMQPClass::Basic(B::CancelOk(_))))).count() as u64;
+        if got_oks != want_oks {
+            res.violate("cancel_ok_count", format!("ch{}: {} Basic.CancelOk on the wire, {} server cancels asked for one", chid, got_oks, want_oks));
+        }
+        // the consume requests come first on this channel; the publish oracle starts behind them
+        let body: Vec<WFrame> = clean.into_iter().filter(|f| !matches!(f.method(), Some(AMQPClass::Basic(B::Consume(_))))).collect();
+        check_channel(&body, chid, &pubs, fm, res);
+    }
+    let tc = run::spawn("close", move || conn.close());
+    let _ = tc.join(W);
+    for p in run::io_panics(&run::take_panics()) {
+        res.violate("panic", format!("I/O thread: {} at {}", p.msg, p.loc));
+    }
+    res.sig = crate::rng::fnv_str(&format!("cmp{:?}{:?}", points, nowaits));
+    res.sample = Some(json!({"scenario": "server cancels consumers of the publishing channel while a publish is in flight", "body_frames": total_frames, "cancel_after_body_frames": points, "nowait": nowaits}));
+}
+
 pub fn run(rc: &mut RunCtx) {
     let seed = rc.seed;
+    for i in 0..rc.n(16, 200) {
+        let id = format!("cancel-mid-publish:{}", i);
+        if !rc.mine(&id) {
+            continue;
+        }
+        rc.begin(&id);
+        let mut res = CaseResult::new(id);
+        let mut r = Rng::for_case(seed, 2, 3_000_000 + i);
+        cancel_mid_publish(&mut r, &mut res);
+        rc.end(res);
+    }
     // negotiated frame_max values: (client, server)
     let fms: &[(u32, u32)] = &[(0, 4096), (4096, 0), (4097, 131072), (0, 8192), (65536, 131072), (0, 131072), (0, 0), (5000, 4999 + 1), (1 << 20, 0)];
     let n = rc.n(1000, 8000);
